@@ -170,6 +170,22 @@ def _apply_layout_stage(stage: Callable[[str], str], source: str) -> str:
     return source
 
 
+def _hand_back_code_that_is_too_deep(function: Callable[..., str]) -> Callable[..., str]:
+    """The rules walk the syntax tree recursively. A chain of 400 elifs, or the sum of 500
+    strings, is hundreds of levels deep, and is left as it is."""
+
+    @functools.wraps(function)
+    def wrapper(source: str, **kwargs) -> str:
+        try:
+            return function(source, **kwargs)
+        except RecursionError:
+            logger.error("The code is too deeply nested to be formatted")
+            return source
+
+    return wrapper
+
+
+@_hand_back_code_that_is_too_deep
 def format_code(
     source: str,
     *,
